@@ -96,6 +96,26 @@ def case_exchange(p):
         return out + [(f"verify-raises:{type(e).__name__}", d)]
     if ok is not True:
         out.append(("controller-rejects-correct-accessory-proof", d))
+    if p.get("flips") or p.get("getter_orders"):
+        # the values are functions of the exchange, not of which of them a caller asked for first (or twice): every order of the public
+        # getters - premaster secret S, session key K, proof M1, the verdict on the accessory's proof V - on a client of its own
+        import itertools
+
+        want = {"S": int(ex.S_client), "K": ex.K_client, "M": ex.M1_client, "V": True, "A": ex.A_pad}
+        ask = {"S": lambda cl: int(cl.get_shared_secret()), "K": lambda cl: bytes(cl.get_session_key_bytes()), "M": lambda cl: bytes(cl.get_proof_bytes()),
+               "V": lambda cl: cl.verify_servers_proof_bytes(ex.M2_server), "A": lambda cl: bytes(cl.get_public_key_bytes())}
+        orders = list(itertools.permutations("SKMV")) + [("S", "S", "K"), ("K", "S", "S", "M"), ("M", "S", "V", "S", "K"), ("S", "A", "M"), ("V", "S", "A")]
+        for order in orders:
+            try:
+                cl = _client(code, salt, a, ex.B_pad)
+                got = [(g, ask[g](cl)) for g in order]
+            except Exception as e:  # noqa: BLE001
+                out.append((f"client-raises:{type(e).__name__}:getter-order", {**d, "order": "".join(order)}))
+                break
+            bad = [g for g, v in got if v != want[g]]
+            if bad:
+                out.append(("values-depend-on-the-order-of-the-getter-calls", {**d, "order": "".join(order), "wrong": bad}))
+                break
     if p.get("flips"):
         for bit in range(len(ex.M2_server) * 8):
             m = bytearray(ex.M2_server)
@@ -342,6 +362,15 @@ def run(ctx):
     if not quick:
         a_vals += [int.from_bytes(det_bytes(seed, f"ax{i}", 16), "big") for i in range(3)] + [3, 1 << 127]
         b_vals += [int.from_bytes(det_bytes(seed, f"bx{i}", 32), "big") for i in range(2)] + [2, int.from_bytes(det_bytes(seed, "b16", 16), "big")]
+    # ephemeral secrets of full width and beyond (RFC 5054 puts no upper bound on a; the accessory's b likewise): what is reduced where shows only here
+    N = G.N
+    wide = [N - 5, N - 1, N, N + 12345, (1 << 3072) - 1, (1 << 3071) + int.from_bytes(det_bytes(seed, "aw", 64), "big"), N - (1 << 1000), (1 << 4000) + 7]
+    for k, aw in enumerate(wide):
+        for code, salt in ((codes[1], salts[5]), (codes[0], salts[0]), (codes[3], salts[1])):
+            for bw in (b_vals[2], wide[(k + 3) % len(wide)]):
+                if quick and (code != codes[1]) and bw is not b_vals[2]:
+                    continue
+                work.append(("exchange", {"code": code, "salt": salt, "a": hex(aw), "b": hex(bw), "flips": False, "getter_orders": k < 2, "target": "salt" if salt[0] == 0 else None}))
     i = 0
     for code in codes:
         for salt in salts:
